@@ -160,7 +160,7 @@ theorem reset_rate (s : Irc) : RateStep s (reset s) := by
   intro st hi _
   obtain ⟨a1, a2, a3, a4, a5⟩ := queueConnectMessages_frame
     { s with lastTake := 0, afterConnect := false, lastPing := s.now, outstandingPing := false,
-             echoAcked := false, queue := Queue.empty, fast := [] }
+             echoAcked := false, labelAcked := false, queue := Queue.empty, fast := [] }
   refine ⟨{ st with lastQ := none, lastJ := none }, ?_, ?_⟩
   · simp only [Rate.run, Rate.push]
     exact Rate.run_neutral _ _ a5
@@ -398,6 +398,7 @@ theorem step_rate (ht : TablesOk Gen.highPriority Gen.lowPriority Gen.rateLimite
   | connected => exact RateStep.of_neutral (by intro e h; cases h) rfl rfl rfl rfl
   | pong => exact RateStep.of_neutral (by intro e h; cases h) rfl rfl rfl rfl
   | capEcho b => exact RateStep.of_neutral (by intro e h; cases h) rfl rfl rfl rfl
+  | capLabel b => exact RateStep.of_neutral (by intro e h; cases h) rfl rfl rfl rfl
   | config c =>
     intro st hi _
     exact ⟨{ st with thr := c.throttle, jl := c.joinLimit }, rfl, rfl, rfl, hi.lastQ, hi.takeNow,
